@@ -67,6 +67,11 @@ func genAppendOp(r *Rng, n int, model []bool) HistOp {
 	case 0, 1, 2, 3: // clause
 		if r.Chance(1, 6) && len(lits) < 4 { // repeated literal
 			op.Lits = append(op.Lits, op.Lits[r.Intn(len(op.Lits))])
+		} else if r.Chance(1, 8) { // both polarities of a variable: a clause that always holds
+			op.Lits = append(op.Lits, -op.Lits[r.Intn(len(op.Lits))])
+			if r.Bool() && len(op.Lits) > 2 {
+				op.Lits[0], op.Lits[len(op.Lits)-1] = op.Lits[len(op.Lits)-1], op.Lits[0]
+			}
 		}
 	case 4, 5: // cardinality
 		op.Card = r.Range(1, len(lits))
